@@ -39,7 +39,7 @@ CodeFaults == AllFaults
 \* Cache_asis.cfg: the defect(s) named by the environment variable C12_FAULTS ("all" or one name)
 EnvFaults == IF IOEnv.C12_FAULTS = "all" THEN AllFaults ELSE {f \in AllFaults : f = IOEnv.C12_FAULTS}
 AllOps == {"tq", "sq", "taddf", "taddc", "saddf", "saddc", "tinv", "sinv", "tclone", "sclone",
-           "tmut", "txo", "sadd", "sdel", "sset", "sxo", "smut"}
+           "tmut", "txo", "sadd", "sadds", "sdel", "sset", "sxo", "smut"}
 TestOps == {"tq", "taddf", "taddc", "tinv", "tclone", "tmut", "txo"}
 SuiteOps == {"sq", "tq", "saddf", "saddc", "sinv", "sclone", "sadd", "sdel", "sset", "sxo", "smut"}
 \* focus modes: few calls, one query kind per history, explored deeper
@@ -54,7 +54,7 @@ FocusC == {"Cfit", "Cisc", "Ccov"} \cup PatC
 FocusM == {"Mfit", "Misc", "Mcov"} \cup PatM
 KindOf(m) == IF m \in {"Cfit", "Mfit", "PCfit", "PMfit"} THEN "fit"
              ELSE IF m \in {"Cisc", "Misc", "PCisc", "PMisc"} THEN "isc" ELSE "cov"
-PatMOps == {"sq", "tq", "smut", "sxo", "sadd", "sdel", "sset", "sclone"}
+PatMOps == {"sq", "tq", "smut", "sxo", "sadd", "sadds", "sdel", "sset", "sclone"}
 ModeOps(m) == IF m = "T" THEN TestOps ELSE IF m = "S" THEN SuiteOps
               ELSE IF m \in PatM THEN PatMOps
               ELSE IF m \in FocusC THEN CloneOps ELSE IF m \in FocusM THEN MemberOps ELSE AllOps
@@ -93,6 +93,7 @@ Acts(W0) ==
       \cup {A("tmut", a, 0, 0, 0, "", "") : a \in tt}
       \cup {A("txo", a, b, 0, 0, "", "") : a \in tt, b \in tt}
       \cup {A("sadd", s, a, 0, 0, "", "") : s \in {x \in ls : Len(W0.s[x].mem) < MaxSuite}, a \in tt}
+      \cup {A("sadds", s, a, 0, 0, "", "") : s \in {x \in ls : Len(W0.s[x].mem) < MaxSuite}, a \in tt}
       \cup {A("sdel", s, a, 0, 0, "", "") : s \in ls, a \in lt}
       \cup {A("sset", s, a, p, 0, "", "") : s \in ls, a \in tt, p \in 1..MaxSuite}
       \cup {A("sxo", s, s2, p, q, "", "") : s \in ls, s2 \in ls, p \in 0..MaxSuite, q \in 0..MaxSuite}
